@@ -317,7 +317,11 @@ class Doc(object):
     def text(self, seg_t='~', ele_t='*', sub_t=':', eol='\n'):
         lines = []
         for r in self.recs:
-            lines.append(render_seg(r.node.id, r.vals, seg_t, ele_t, sub_t))
+            vals = r.vals
+            if r.node.id == 'ISA' and len(vals) >= 16:
+                vals = list(vals)
+                vals[15] = sub_t
+            lines.append(render_seg(r.node.id, vals, seg_t, ele_t, sub_t))
         return eol.join(lines) + eol
 
     def segments(self):
